@@ -36,6 +36,18 @@ func crashSeeds(thorough bool) []*CrashSeed {
 	var seeds []*CrashSeed
 	for _, mem := range []int{128, 32} {
 		for _, ck := range []bool{false, true} {
+			if !thorough && (mem == 128) == ck {
+				// quick: each seed shape with both pool sizes and both checkpoint states, but not the full product
+				// (small: 128/no-ckpt and 32/ckpt; page-full: the other two)
+				sfx := fmt.Sprintf("/mem%d/ckpt=%v", mem, ck)
+				seeds = append(seeds, &CrashSeed{Name: "page-full" + sfx, MemKB: mem, Tables: []TableDef{crashT}, Stmts: full, Ckpt: ck})
+				continue
+			}
+			if !thorough {
+				sfx := fmt.Sprintf("/mem%d/ckpt=%v", mem, ck)
+				seeds = append(seeds, &CrashSeed{Name: "small" + sfx, MemKB: mem, Tables: []TableDef{crashT}, Stmts: small, Ckpt: ck})
+				continue
+			}
 			sfx := fmt.Sprintf("/mem%d/ckpt=%v", mem, ck)
 			seeds = append(seeds, &CrashSeed{Name: "small" + sfx, MemKB: mem, Tables: []TableDef{crashT}, Stmts: small, Ckpt: ck})
 			seeds = append(seeds, &CrashSeed{Name: "page-full" + sfx, MemKB: mem, Tables: []TableDef{crashT}, Stmts: full, Ckpt: ck})
